@@ -54,12 +54,18 @@ impl vstd::std_specs::convert::TryFromSpecImpl<u8> for Command {
 //@ extract hid struct Message
 //@ extract hid enum ExtensionError
 //@ extract hid enum CreationError
-// ---- the byte sink of the sender (trusted model of std::io::Write for a packet device): one `write` = one packet
+// ---- the byte sink of the sender: std::io::Write as its documentation states it (assumed contract of the dependency):
+// `write` "will attempt to write the entire contents of buf, but the entire write might not succeed ... returns how many
+// bytes were written": Ok(n) with n <= buf.len() and exactly that prefix written; an error means nothing was written.
+// `written()` is the sequence of chunks handed over, one per successful `write`.
 pub struct IoError;
+#[verifier::external_type_specification]
+pub struct ExIoErrorKind(std::io::ErrorKind);
+impl From<std::io::ErrorKind> for IoError { fn from(_k: std::io::ErrorKind) -> IoError { IoError } }
 pub trait VxWrite {
     spec fn written(&self) -> Seq<Seq<u8>>;
     fn write(&mut self, buf: &[u8]) -> (r: Result<usize, IoError>)
-        ensures match r { Ok(_) => final(self).written() == old(self).written().push(buf@), Err(_) => final(self).written() == old(self).written() };
+        ensures match r { Ok(n) => n <= buf@.len() && final(self).written() == old(self).written().push(buf@.subrange(0, n as int)), Err(_) => final(self).written() == old(self).written() };
     fn flush(&mut self) -> (r: Result<(), IoError>) ensures final(self).written() == old(self).written();
 }
 // a 64-byte buffer that carries an initialisation / continuation header, its data and zeros after it is that packet of the layout
